@@ -93,7 +93,7 @@ func checkSeq(c seqCase) *vlib.Failure {
 
 func seqClasses(c seqCase) []string {
 	f, l := c.prepared()
-	var out []string
+	out := iogen.RouteClasses(f.Route)
 	nt := false
 	if len(f.Recs) == 0 {
 		return []string{"no-records"}
@@ -223,6 +223,7 @@ func featClasses(c featCase) []string {
 	last := ""
 	if c.Bed != nil {
 		l = append(l, "bed")
+		l = append(l, iogen.RouteClasses(c.Bed.Route)...)
 		n = len(c.Bed.Recs)
 		last = "record"
 	} else {
